@@ -10,14 +10,26 @@ Import ListNotations.
    carries exactly that request and its stage list contains the handler stage; and every finish's
    stage list is HS, the pipeline stages in order with every started stage finished, HF
    (`stages_ok`).  `serve` is the transcription of Server.Serve's loop with its event stack and
-   traceStarted flag; the theorem is for EVERY script of per-request outcomes, of any length. *)
-Theorem C19_pairs_brackets_stages : forall script : list outcome,
-  crun Closed (serve script) = Some Closed.
+   traceStarted flag; the theorem is for EVERY script of per-request outcomes, of any length, ending with the
+   peer closing or with a read timeout. *)
+Theorem C19_pairs_brackets_stages : forall (tmo : bool) (script : list outcome),
+  crun Closed (serve tmo script) = Some Closed.
 Proof. exact serve_wellformed. Qed.
 Print Assumptions C19_pairs_brackets_stages.
 
+(* "The finish carries that request's data": the error a Finish call finds in the trace info (Stats().Error()) is
+   the error of its own exchange — set exactly when that request's head was malformed, its body could not be read
+   or its response could not be written — and never one left by an earlier request of the connection, for EVERY
+   script of outcomes.  (The trace info starts clean: Reset on its way through the pool, compared between
+   connections of one engine by unit c19.data.) *)
+Theorem C19_finish_error_is_its_own : forall (tmo : bool) (script : list outcome),
+  finish_errors (serve tmo script) = own_errors tmo 1 script.
+Proof. exact finish_error_is_own. Qed.
+Print Assumptions C19_finish_error_is_its_own.
+
 Example C19_nonvacuous :
   serve_trace (B "kkb") =
-  B "S H:/r1 F:/r1:hs,rhs,rhf,rbs,rbf,shs,shf,ws,wf,hf S H:/r2 F:/r2:hs,rhs,rhf,rbs,rbf,shs,shf,ws,wf,hf S F:/r3:hs,rhs,rhf,rbs,rbf,hf"
-  /\ crun Closed [TStart; Handled 1; TFinish (Some 1) [HS; RHS; RHF; RBS; RBF; SHS; SHF; WS; WF; HF]; TFinish None [HF]] = None.
-Proof. split; vm_compute; reflexivity. Qed.
+  B "S H:/r1 F:/r1:hs,rhs,rhf,rbs,rbf,shs,shf,ws,wf,hf:- S H:/r2 F:/r2:hs,rhs,rhf,rbs,rbf,shs,shf,ws,wf,hf:- S F:/r3:hs,rhs,rhf,rbs,rbf,hf:err"
+  /\ crun Closed [TStart; Handled 1; TFinish (Some 1) [HS; RHS; RHF; RBS; RBF; SHS; SHF; WS; WF; HF] false; TFinish None [HF] false] = None
+  /\ own_errors false 1 [OKeep; OKeep; OBodyErr; OKeep] = [false; false; true].
+Proof. repeat split; vm_compute; reflexivity. Qed.
